@@ -226,7 +226,8 @@ def run(tier):
     if tier == "quick":
         ns = list(range(1, 9)) + [126, 127, 128, 129, 130, 254, 255, 256, 257, 258, 300]
     else:
-        ns = list(range(1, 301))
+        # every n up to 40, every 7th beyond, and every n around the 128 / 256 boundaries
+        ns = sorted(set(list(range(1, 41)) + list(range(41, 301, 7)) + list(range(120, 137)) + list(range(248, 265)) + [300]))
     cfgs = [rb.Cfg(6, "A"), rb.Cfg(6, "A", scratch_slots=True), rb.Cfg(8, "A"), rb.Cfg(8, "A", frame_pointers=False),
             rb.Cfg(10, "A"), rb.Cfg(10, "A", scratch_slots=False)]
     items = []
@@ -246,7 +247,7 @@ def run(tier):
         if n <= 130:
             for cfg in cfgs[:3]:
                 items.append({"n": n, "req": "none", "placement": "main", "kind": "maybe", "cfg": cfg.to_json()})
-    rep.bounds["n_values"] = ns if tier == "quick" else "1..300"
+    rep.bounds["n_values"] = ns
     rep.bounds["cases"] = len(items)
     for sh in common.pmap_shards(_worker, items, order_seed=rep.seed):
         rep.merge(sh)
